@@ -11,7 +11,7 @@ floating point.
 """
 import ast
 
-from ..absint import Interp, CTX, Cst, Lst, D, Obj, num, Deg
+from ..absint import Interp, CTX, Cst, Lst, D, Obj, num, Deg, SCAL
 from .. import hd
 from ..hd import HZ, SEC, expect, events_to_obligations
 from ..program import FuncInfo,  rel
@@ -43,7 +43,13 @@ def configs():
     for cls, methods, data in (("algorithms.ssi.SSIdat", (None,), data1), ("algorithms.ssi.SSIcov", (None, "cov_mm", "cov_R"), data1),
                                ("algorithms.ssi.SSIdat_MS", (None,), dataM), ("algorithms.ssi.SSIcov_MS", (None, "cov_mm", "cov_R"), dataM)):
         for m in methods:
-            out.append((cls, f"method={m}", ssi_rp(m), data, RUN_OUT_SSI, None))
+            # extraction at an explicit order (int and per-mode list): the closeness test must be relative (scale-free in the time unit);
+            # order='find_min' uses an absolute band by design of the pinned code and is outside this clause (see C11 "not decided")
+            mpe_cfgs = None
+            if m is None:
+                mpe_cfgs = [({"sel_freq": Lst([], HZ), "order": Cst(4), "rtol": SCAL}, {"Fn": dict(s=-1), "Xi": {}, "Phi": {}}),
+                            ({"sel_freq": Lst([], HZ), "order": Lst([], Cst(4)), "rtol": SCAL}, {"Fn": dict(s=-1), "Xi": {}, "Phi": {}})]
+            out.append((cls, f"method={m}", ssi_rp(m), data, RUN_OUT_SSI, mpe_cfgs))
     for cls, data in (("algorithms.fdd.FDD", data1), ("algorithms.fdd.EFDD", data1), ("algorithms.fdd.FSDD", data1),
                       ("algorithms.fdd.FDD_MS", dataM), ("algorithms.fdd.EFDD_MS", dataM)):
         for sd in ("per", "cor"):
@@ -91,9 +97,8 @@ def check(prog, run):
             if hd.has_root_events() and hd.is_poisoned(val):
                 continue  # explained by the root event reported under O-hom for this configuration
             expect(run, prog, "O-degree", runm.qual, name, val, exp, config)
-        if mpe is not None:
+        for kw, mouts in (mpe if isinstance(mpe, list) else ([mpe] if mpe is not None else [])):
             o.attrs["result"] = res
-            kw, mouts = mpe
             mm = I.method(cls, "mpe", o)
             I.call(mm, [], dict(kw))
             nconf += 1
@@ -125,7 +130,7 @@ def check(prog, run):
     # non-ascending order; the PreGER split must honour the LISTED order (necessary condition, shared with C03)
     run.rule("R-perm-split", "PreGER reference/roving split takes the reference channels in the listed order and does not modify the index lists", 3)
     from .. import seqsig
-    seqsig.order_obligations(prog, run, "R-perm-split", which=("pre", "reflists"))
+    seqsig.order_obligations(prog, run, "R-perm-split", which=("pre", "reflists", "split_current"))
 
 
 def unit_norm(prog, run):
